@@ -233,7 +233,7 @@ let handlers : (string * (string list -> string -> verdict)) list = [
     | _ -> failwith "args");
 ]
 
-let () =
+let pure_main () =
   let total = ref 0 and mism = ref 0 and specfail = ref 0 and nontriv = ref 0 in
   let per = Hashtbl.create 16 in
   let seen = Hashtbl.create 1024 in
@@ -263,3 +263,8 @@ let () =
   with End_of_file -> ());
   Hashtbl.iter (fun fn (t, m, s, nt) -> Printf.printf "FUNC\t%s\t%d\t%d\t%d\t%d\n" fn t m s nt) per;
   Printf.printf "SUMMARY\t%d\t%d\t%d\t%d\n" !total !mism !specfail !nontriv
+
+let () =
+  match Array.to_list Sys.argv with
+  | _ :: "trace" :: files -> Tracep.run_traces files
+  | _ -> pure_main ()
